@@ -2,7 +2,7 @@
 C14 cache soundness."""
 from contracts.c_attr import ATTR_FIELDS, RC
 
-OPQ_MODELS = {'uval': {'__isinstance__': {'dict': False, 'AttrSetup': False}}}    # a user value: not None unless stated, truthiness unknown (0, '', 0.0 are values)
+OPQ_MODELS = {'uval': {'__isinstance__': {'dict': False, 'AttrSetup': False, 'list': False, 'tuple': False}}}    # a user value: not None unless stated, truthiness unknown (0, '', 0.0 are values)
 
 CONTRACTS = {}
 for _v in ('none', 'opq:uval'):
